@@ -477,6 +477,18 @@ func (f *frame) loadLoc(l *Loc, h Heap) string {
 		key, sort := e.cellHeapKey(l.elemT)
 		return fmt.Sprintf("(select %s %s)", e.heapGet(h, key, sort), l.base)
 	case locGlobal:
+		if l.idx != "" {
+			// element of an array-typed package variable
+			key := "G_" + mangle(l.global.Pkg.Pkg.Name()+"."+l.global.Name())
+			srt := e.R.sortOf(l.owner)
+			var arr string
+			if e.E.globalIsStable(l.global) || e.E.globalElemOnlyRead(l.global) {
+				arr = e.R.heapConst(key, srt)
+			} else {
+				arr = e.heapGet(h, key, srt)
+			}
+			return fmt.Sprintf("(select %s %s)", arr, l.idx)
+		}
 		if t, ok := e.globalConstTerm(l.global); ok {
 			return t
 		}
@@ -586,6 +598,12 @@ func (f *frame) storeLoc(l *Loc, val string, h Heap) {
 		e.heapSet(h, key, sort, fmt.Sprintf("(store %s %s %s)", cur, l.base, val))
 	case locGlobal:
 		key := "G_" + mangle(l.global.Pkg.Pkg.Name()+"."+l.global.Name())
+		if l.idx != "" {
+			srt := e.R.sortOf(l.owner)
+			cur := e.heapGet(h, key, srt)
+			e.heapSet(h, key, srt, fmt.Sprintf("(store %s %s %s)", cur, l.idx, val))
+			return
+		}
 		e.heapGet(h, key, e.R.sortOf(l.elemT))
 		e.heapSet(h, key, e.R.sortOf(l.elemT), val)
 	default:
